@@ -228,7 +228,7 @@ func literalCallThoughtfulReduceChainMiddleware(next _LiteralCallMiddlewareHandl
 			nextRecv := object.NewPanArr(acc, nextRet)
 
 			evaluated := next(env, nextRecv, chainArg, args, kwargs)
-			if evaluated.Type() == object.ErrType {
+			if evaluated.Type() == object.ErrType || evaluated.Type() == object.NilType {
 				// replace evaluated value with last acc
 				continue
 			}
